@@ -22,6 +22,37 @@ import time
 PROP = "C01"
 F_LEX = "sqlfluff.core.parser.lexer:PyLexer.lex"
 F_ITER = "sqlfluff.core.parser.lexer:_iter_segments"
+_LEX_LIMIT_S = 20        # lexing a string of <= 40 characters takes milliseconds
+
+
+class _Timeout(BaseException):
+    """raised by the alarm below; a BaseException so that `except Exception` handlers inside sqlfluff do not swallow it"""
+
+
+class _deadline:
+    """with _deadline(seconds): ...   -- SIGALRM based, main thread of the (worker) process only; no-op elsewhere"""
+
+    def __init__(self, seconds):
+        self.seconds = int(seconds)
+        self.armed = False
+
+    def __enter__(self):
+        import signal
+        import threading
+        if threading.current_thread() is threading.main_thread():
+            def handler(signum, frame):
+                raise _Timeout()
+            self.old = signal.signal(signal.SIGALRM, handler)
+            signal.alarm(self.seconds)
+            self.armed = True
+        return self
+
+    def __exit__(self, *exc):
+        if self.armed:
+            import signal
+            signal.alarm(0)
+            signal.signal(signal.SIGALRM, self.old)
+        return False
 
 
 def _failed(id_, function, detail, name=None):
@@ -274,7 +305,8 @@ def _lex_templated(source, dialect, templater):
         return None
     if tf is None:
         return None
-    tokens, errs = Lexer(config=cfg).lex(tf)
+    with _deadline(_LEX_LIMIT_S):
+        tokens, errs = Lexer(config=cfg).lex(tf)
     return tf, tokens, errs
 
 
@@ -283,6 +315,8 @@ def _eval_template(parts, dialect, templater):
     src = _render_jinja(parts) if templater == "jinja" else _render_flat(parts, templater)
     try:
         r = _lex_templated(src, dialect, templater)
+    except _Timeout:
+        return {"raised[timeout]": {"message": f"lex did not return within {_LEX_LIMIT_S} s"}}, src, None
     except Exception as e:
         return {f"raised[{type(e).__name__}]": {"message": str(e)[:200]}}, src, None
     if r is None:
@@ -433,7 +467,11 @@ def token_positions(tier="quick", seed=0):
             s = "".join(rng.choice(_ALPHA) for _ in range(rng.randint(0, 20)))
             ev += 1
             try:
-                tokens, errs = lx.lex(TemplatedFile.from_string(s))
+                with _deadline(_LEX_LIMIT_S):
+                    tokens, errs = lx.lex(TemplatedFile.from_string(s))
+            except _Timeout:
+                note("C01/untemplated/raised[timeout]", len(s), {"dialect": d, "text": s, "text_repr": ascii(s)})
+                continue
             except Exception as e:
                 note(f"C01/untemplated/raised[{type(e).__name__}]", len(s), {"dialect": d, "text": s, "text_repr": ascii(s), "message": str(e)[:200]})
                 continue
